@@ -242,6 +242,13 @@ static inline bool must_accept(const Case &cs, std::string *why = nullptr)
     const Node &top = cs.n[(size_t) cs.chain[m - 1]];
     if (leaf.eku != 0 && leaf.eku != mint::EKU_SERVER && leaf.eku != mint::EKU_CLIENT) return no("eku");
     for (size_t j = 0; j < m; j++) if (!node_strict(cs.n[(size_t) cs.chain[j]])) return no("node");
+    // well-formed naming on every presented certificate: issuer name = subject name of the genuine issuer, self-issued only for roots
+    for (size_t j = 0; j < m; j++)
+    {
+        const Node &x = cs.n[(size_t) cs.chain[j]];
+        if (x.selfIssued ? !name_eq(x.issuerName, x.subj)
+                         : (x.parent < 0 || !name_eq(x.issuerName, cs.n[(size_t) x.parent].subj) || name_eq(x.issuerName, x.subj))) return no("names");
+    }
     for (size_t j = 0; j + 1 < m; j++)
         if (!link_strict(cs, cs.n[(size_t) cs.chain[j]], cs.n[(size_t) cs.chain[j + 1]], (int) j)) return no("link");
     bool caseA = top.parent >= 0 && !top.selfIssued && in_list(cs.anchors, top.parent);
